@@ -402,18 +402,22 @@ def body_term(stmts: Sequence[ast.stmt], env: Env) -> Term:
             env = env.child()
             env.names[targets[0].id] = T(st.value, env)
             return body_term(rest, env)
-        if len(targets) == 1 and isinstance(targets[0], ast.Tuple) and isinstance(st.value, ast.Tuple) and len(targets[0].elts) == len(st.value.elts) and all(isinstance(e, ast.Name) for e in targets[0].elts):
+        if len(targets) == 1 and isinstance(targets[0], ast.Tuple) and st.value is not None:
             new = env.child()
-            vals = [T(v, env) for v in st.value.elts]
-            for e, v in zip(targets[0].elts, vals):
-                new.names[e.id] = v
-            return body_term(rest, new)
-        if len(targets) == 1 and isinstance(targets[0], ast.Tuple) and st.value is not None and all(isinstance(e, ast.Name) for e in targets[0].elts):
-            new = env.child()
-            val = T(st.value, env)
-            for i, e in enumerate(targets[0].elts):
-                new.names[e.id] = ("unpack", val, i)
-            return body_term(rest, new)
+
+            def bind(t: ast.AST, v_node: Optional[ast.AST], v_term) -> bool:
+                if isinstance(t, ast.Name):
+                    new.names[t.id] = v_term if v_term is not None else T(v_node, env)
+                    return True
+                if isinstance(t, ast.Tuple):
+                    if v_node is not None and isinstance(v_node, ast.Tuple) and len(v_node.elts) == len(t.elts):
+                        return all(bind(a, b, None) for a, b in zip(t.elts, v_node.elts))
+                    base = v_term if v_term is not None else T(v_node, env)
+                    return all(bind(a, None, ("unpack", base, i)) for i, a in enumerate(t.elts))
+                return False
+
+            if bind(targets[0], st.value, None):
+                return body_term(rest, new)
         raise Unrecognised(f"assignment {unparse(st)[:60]}")
     if isinstance(st, ast.Assert):
         return ("assuming", T(st.test, env), body_term(rest, env))
